@@ -1,5 +1,5 @@
 (* C13/Properties.v — the property's clauses as theorems (statements only; proofs are in Proofs*.v). *)
-From Verif Require Import Common.Base C13.Model C13.Spec C13.Proofs1 C13.Proofs2 C13.Proofs3 C13.Proofs4 C13.Proofs5 C13.Proofs6 C13.Instances.
+From Verif Require Import Common.Base C13.Model C13.Spec C13.Proofs1 C13.Proofs2 C13.Proofs3 C13.Proofs4 C13.Proofs5 C13.Proofs6 C13.Proofs7 C13.Proofs8 C13.Instances.
 From Verif Require Import Generated.C13CfgSchema.
 From Coq Require Import String.
 
@@ -237,3 +237,40 @@ Print Assumptions no_silent_coercion_partial.
 Theorem null_leaves_default : forall k, decode_leaf k WNull = DKeep.
 Proof. exact null_keeps_l. Qed.
 Print Assumptions null_leaves_default.
+
+(* ---- the effective configuration with omitempty, and the round trip ------------------------- *)
+
+(* full strength, for EVERY typed configuration with unique keys and EVERY key path: the effective
+   configuration holds at p exactly the encoding of the setting at p, unless a field on the way is
+   left out as omitempty-and-zero — one equation, hence both "every visible key is present with
+   its value" and "nothing else appears" *)
+Theorem effective_config_exact : forall v, o_wf v -> forall p,
+  cv_get p (Some (encode_o v)) = option_map encode_o (o_get_vis p v).
+Proof. exact effective_exact_l. Qed.
+Print Assumptions effective_config_exact.
+
+Theorem effective_config_nothing_else : forall v p c, o_wf v ->
+  cv_get p (Some (encode_o v)) = Some c -> exists x, o_get_vis p v = Some x /\ c = encode_o x.
+Proof. exact effective_sound_l. Qed.
+Print Assumptions effective_config_nothing_else.
+
+(* "every written key is present" without the visibility condition is FALSE of the code: a zero
+   written for an omitempty field is absent (known finding C13-OMITEMPTY-HIDES-ZERO) *)
+Theorem effective_config_reflects_refuted : exists v p x,
+  o_wf v /\ o_get p v = Some x /\ cv_get p (Some (encode_o v)) = None.
+Proof. exact effective_omits_zero_l. Qed.
+Print Assumptions effective_config_reflects_refuted.
+
+(* round trip: decoding the effective configuration INTO the factory defaults gives the typed
+   configuration back, when the shapes agree and there is no omitempty-zero ambiguity (wherever a
+   field is left out, its default already is that value) ... *)
+Theorem encode_decode : forall d v, compat d v -> overlay (o_strip d) (Some (encode_o v)) = o_strip v.
+Proof. exact encode_decode_l. Qed.
+Print Assumptions encode_decode.
+
+(* ... and fails without that assumption (same shape, omitempty bool with default true set to false) *)
+Theorem encode_decode_refuted : exists d v,
+  (forall p, tv_get p (o_strip d) = None <-> tv_get p (o_strip v) = None) /\
+  overlay (o_strip d) (Some (encode_o v)) <> o_strip v.
+Proof. exact encode_decode_refuted_l. Qed.
+Print Assumptions encode_decode_refuted.
